@@ -398,7 +398,8 @@ impl PortAssociation {
     }
 
     fn len() -> usize {
-        16
+        // type, reserved, length (2), segment (2), bdf (2), protocol, base address (8)
+        17
     }
 
     fn bdf(&self) -> u16 {
